@@ -151,7 +151,7 @@ func init() {
 			"R-ERRSITES + R-ERRCLASS: every constructed error wraps an exec sentinel; no foreign or bare error reaches an entry point; NULL only from Exists/Match"},
 		NotDecided:  []string{"implicit panics other than index/slice bounds in package exec (nil dereference, integer division in the standard library, bounds inside the standard library)", "purity of the queried value beyond what C19's write census shows", "finiteness of numbers that are copied from the document (assumed finite JSON numbers)"},
 		Assumptions: []string{"item values have one of the 13 documented dynamic types", "a json.Number holds a syntactically valid JSON number", "ast.LinkNodes chains nodes[i].next = nodes[i+1] (its documented contract)", "values of enum types are declared constants"},
-		Trusted:     append(append([]string{}, baseTrusted...), "goyacc (x/tools v0.29.0) reproduces the rule numbering of the compiled grammar.go"),
+		Trusted:     append(append([]string{}, baseTrusted...), "goyacc (x/tools v0.29.0) reproduces the rule numbering of the compiled grammar.go", "cmd/compile prove pass (-d=ssa/check_bce), run on every check, its report confirmed live by a sentinel function: it only removes bounds checks it has proven"),
 	})
 }
 
